@@ -20,13 +20,18 @@ TOL = 1e-12
 def plan(tier, seed):
     nb = 2 if tier == "quick" else 12
     n = 25 if tier == "quick" else 60
-    return [{"name": "book-%d" % b, "kind": "book", "b": b, "n": n, "timeout": 900} for b in range(nb)]
+    specs = [{"name": "book-%d" % b, "kind": "book", "b": b, "n": n, "timeout": 900} for b in range(nb)]
+    # the repository's own tests as workload, with the ambient monitors of vf.ambient installed
+    specs.append({"name": "ambient-tests", "kind": "ambient-tests", "files": ['test_Spectrum.py', 'test_Subgenomes.py', 'test_Freezing.py', 'test_PhiManip.py'], "timeout": 2400, "cpus": 4})
+    return specs
 
 
 def required(tier):
-    return {"marginalize": 30, "filter_pops": 30, "reorder_pops": 30, "combine_pops": 30, "combine_two_pops": 20,
+    r = {"marginalize": 30, "filter_pops": 30, "reorder_pops": 30, "combine_pops": 30, "combine_two_pops": 20,
             "scramble": 20, "Misc.combine_pops": 10, "folded-flag": 40, "labels": 100, "commute-project": 30,
             "commute-fold": 30}
+    r.update({'ambient-marginalize': 8})
+    return r
 
 
 def noncorner(shape):
@@ -79,6 +84,9 @@ def scramble_ref(data):
 
 
 def run(spec, rec):
+    if spec.get("kind") == "ambient-tests":
+        from vf import ambient
+        return ambient.run_tests_batch(spec, rec, 'C10')
     import dadi
     from dadi import Spectrum, Misc
     seed = spec["seed"]
